@@ -6,108 +6,25 @@ import os
 VERIF = os.path.dirname(os.path.dirname(os.path.abspath(__file__)))
 ALL = ["C%02d" % i for i in range(1, 21)]
 
-CHECKS = {
-    "C09": dict(
-        engine="RecordLayer+TraceNumbering",
-        category="model_checking",
-        text=("TLC checks RecordNumbersUnique, StrictlyIncreasingPerEpoch, NoWrap and EpochMonotone over all interleavings of concurrent "
-              "writers, key updates and export/import on the send side of the record-layer model; removing the write lock or restarting "
-              "the counter on import must fail. Whole sessions are then run on real endpoints for every cipher suite x CID x padding "
-              "layout: handshake under a fault mask (retransmissions), concurrent writers both ways, key updates racing with them "
-              "(1.3), export/import round trips (1.2), close_notify, counters moved next to 2^48; the record numbers observed on the "
-              "wire (1.2) or at the seal hook (1.3) are validated by TLC against the numbering projection (the trace must be consumed "
-              "completely) and by the harness predicate."),
-        design_ref="DESIGN.md 3 (M3), 4 (C09)",
-        note=("Trusted: TLC, wire-header parsing, the seal hook for DTLS 1.3 numbers. Interleavings of the real goroutines are sampled "
-              "(seeded), the model is exhaustive; the race detector runs in the thorough tier."),
-        technique="TLA+ model (RecordLayer.tla send side) checked by TLC; recorded record numbers validated by a TLA+ trace spec (TraceNumbering.tla)",
-    ),
-    "C05": dict(
-        engine="RecordLayer",
-        category="model_checking",
-        text=("TLC checks OnlyPeerPayloads, NoAlertOnForgery, ForgeryHasNoEffect and GenuineStillAccepted on the receive pipeline in the "
-              "code's order (replay check - authenticate - CID check - deliver - commit); committing before authentication must fail. "
-              "Every behaviour of genuine/forged arrivals generated by TLC is instantiated with concrete mutations of real protected "
-              "records (header number of another record, every MAC/AEAD-covered field, splices from a parallel session, framing "
-              "changes) and injected into live connections for every cipher suite x CID x padding layout of DTLS 1.2 and 1.3, plus "
-              "every single-bit flip and truncation of one record per layout; verdicts come from Read results, receiver emissions and "
-              "the later fate of the genuine record."),
-        design_ref="DESIGN.md 3 (M3), 4 (C05)",
-        note=("Trusted: TLC, lab network. Mutations that make the record epoch 0 or change_cipher_spec are outside the property; an error "
-              "value surfaced by Read for an unframeable datagram is reported as information. Payload sizes up to 8000 bytes."),
-        technique="TLA+ model (RecordLayer.tla, receive side) checked by TLC; TLC arrival scripts concretised and injected into live connections",
-    ),
-    "C13": dict(
-        engine="Handshake12",
-        category="model_checking",
-        text=("TLC checks CookieFirst (no server emission other than the cookie request before the cookie-bearing ClientHello was "
-              "received) and NoTimerHVR on the flight machine; every model edge script is replayed on real endpoints and everything the "
-              "server emits is classified; a man in the middle rewrites the second ClientHello of a real client (cookie absent, wrong, "
-              "one bit off, truncated, extended, stale, removed; right cookie with altered random / session id / suites / extensions), "
-              "1..3 repetitions, with timer events in between, for DTLS 1.2 and 1.3; real-time silence after the cookie request."),
-        design_ref="DESIGN.md 3 (M1), 4 (C13)",
-        note=("Trusted: TLC, the wire classifier of the harness (record/handshake type bytes, HRR random). 'Otherwise identical' is read as "
-              "the RFC parameter lists; DTLS 1.2 changes to other extensions and alerts answering a bad hello are informational."),
-        technique="TLA+ model (Handshake12.tla) checked by TLC; edge scripts and ClientHello-pair classes replayed against a real server",
-    ),
-    "C17": dict(
-        engine="Handshake12",
-        category="model_checking",
-        text=("TLC checks TimerLaw, NoTimerHVR, FinalFlightOnlyOnPeerRetx and EmissionBound on the flight machine; the pre-fix resumed "
-              "server (falls back to Waiting after completion) must violate FinalFlightOnlyOnPeerRetx. Every model edge script is replayed "
-              "with virtual timers and the law is evaluated on the real interval/retransmit-flag/emissions after each timer event and "
-              "datagram (new vs retransmitted input, stale twins, backoff disabled); handleRetransmitTimeout is driven in-package to the "
-              "60 s cap; real-time silence runs measure inter-emission gaps for every flight, both roles, DTLS 1.2 and 1.3 (hard lower "
-              "bound I*2^k), floods of stale / replayed / garbage datagrams are held against the emission bound."),
-        design_ref="DESIGN.md 3 (M1), 4 (C17)",
-        note=("Trusted: TLC, the virtual-timer hook (same handler as the real timer), Go timers not firing early. Upper timing bounds are "
-              "informational only. DTLS 1.3 is covered by the real-time and flood runs, not by a 1.3 model yet."),
-        technique="TLA+ model (Handshake12.tla) checked by TLC; edge scripts replayed with law predicates; real-time gap measurement",
-    ),
-    "C02": dict(
-        engine="Handshake12",
-        category="model_checking",
-        text=("TLC checks <>[](both established) under fairness with the fault budget inside Next on the DTLS 1.2 flight machine "
-              "(full, no-cookie, resumed); the pre-fix fsm12.finish must violate it. Every explored edge of the model is replayed as an "
-              "environment script (deliver/drop/duplicate/stale twin/timer) on two real endpoints with virtual timers, state compared "
-              "after every step, then the network turns reliable and both must complete; this is crossed with the certificate, PSK, "
-              "ECDHE-PSK, client-auth, CID and resumed scenario families. The property's own quantifier (every fault mask over the first "
-              "N datagrams of a direction, joint masks, sampled longer ones) runs on free-running endpoints with real timers, for DTLS 1.2 "
-              "incl. fragmented handshakes and DTLS 1.3 with and without HelloRetryRequest, with application data checked afterwards."),
-        design_ref="DESIGN.md 3 (M1), 4 (C02)",
-        note=("Trusted: TLC, lab network, virtual-timer hook (same handler as the real timer). Model: one datagram per flight; "
-              "DTLS 1.3 and fragmented handshakes are decided by mask enumeration only. Timing failures are re-run twice before they count."),
-        technique="TLA+ model (Handshake12.tla) with TLC liveness checking; TLC edge scripts replayed on real endpoints; fault-mask enumeration",
-    ),
-    "C06": dict(
-        engine="ReplayWindow",
-        category="model_checking",
-        text=("TLC checks AtMostOnce and WithinWindowDelivered on the window function over every arrival sequence with repetition "
-              "(windows 1,2,3,4,8,...); every generated sequence is then replayed on a fresh live connection configured with that "
-              "window (DTLS 1.2 and a DTLS 1.3 share), and seeded long sequences from tlc -simulate exercise the default window of 64 "
-              "at its edges. Verdicts come from what Read really returned; the model's delivery list is compared too."),
-        design_ref="DESIGN.md 3 (M3), 4 (C06)",
-        note=("Trusted: TLC; lab network FIFO delivery; one payload per record. Short sessions exhaustive, long sessions sampled; "
-              "replay across export/import is not in the quantifier."),
-        technique="TLA+ model (ReplayWindow.tla) checked by TLC; TLC-generated arrival scripts replayed on live connections",
-    ),
-    "C12": dict(
-        engine="FragmentBuffer",
-        category="model_checking",
-        text=("TLC checks the reassembly formulas (exactly-once in order, surfaced = original, never incomplete, complete => surfaced, "
-              "retransmission recognised, Pop agrees with the reference) on a transcription of Push/Pop/AdvanceTo over honest partitions "
-              "and over inconsistent header fields; every explored edge of that model is replayed as a script on the real FragmentBuffer "
-              "and the predicates are evaluated on the real outputs; the sender's fragmentHandshake is enumerated over (length, MTU) "
-              "pairs and fed to the real receiver. Exhaustive within the stated small domains, which is where ordering/duplication/"
-              "inconsistency mistakes live."),
-        design_ref="DESIGN.md 3 (M4), 4 (C12)",
-        note=("Trusted: TLC, the Go harness's position-coded byte scheme, small header domains (lengths/offsets 0..3, two or three message "
-              "sequences, <= 6 pushes). Buffer limits are exercised under C08."),
-        technique="TLA+ model (FragmentBuffer.tla) checked by TLC; TLC-generated edge scripts replayed on the real FragmentBuffer",
-    ),
-}
+def load_checks():
+    """One JSON file per claimed property under driver/manifest/ (engine, category, text, design_ref, note, technique);
+    optional driver/manifest/na/Cxx.txt holds the reason a property is not claimed."""
+    out = {}
+    d = os.path.join(VERIF, "driver", "manifest")
+    for f in sorted(os.listdir(d)):
+        if f.endswith(".json"):
+            out[f[:-5]] = json.load(open(os.path.join(d, f)))
+    return out
+
+
+CHECKS = load_checks()
 
 NOT_YET = "check not built yet in this round (planned in DESIGN.md section 4)"
+
+
+def na_reason(p):
+    f = os.path.join(VERIF, "driver", "manifest", "na", p + ".txt")
+    return open(f).read().strip() if os.path.exists(f) else NOT_YET
 
 
 def main():
@@ -147,7 +64,7 @@ def main():
                     for e, p in sorted(engines.items())],
         "checks": checks,
         "notes": "See DESIGN.md. Exit codes: 0 held, 1 VIOLATION, 2 inconclusive (machinery could not decide; never a violation).",
-        "not_applicable": [{"property_id": p, "reason": NOT_YET} for p in ALL if p not in CHECKS],
+        "not_applicable": [{"property_id": p, "reason": na_reason(p)} for p in ALL if p not in CHECKS],
     }
     with open(os.path.join(VERIF, "MANIFEST.json"), "w") as fh:
         json.dump(man, fh, indent=1)
